@@ -63,6 +63,11 @@ def configs(tier, seed):
                 if (how in ('ctor32', 'to_float')) == (xd == 'float32'):
                     out.append(dict(sc, check='dtype', how=how, xdtype=xd))
     out.append(dict(kind='scat1', check='quant_scat', biort='near_sym_a', magbias=0.01, H=4, W=4))
+    # no forward division can meet a zero divisor (non-finite output), incl. magbias = 0 and the all-zero image
+    for mb in (0.0, 0.01):
+        out.append(dict(kind='scat1', check='finite_scat', biort='near_sym_a', magbias=mb, H=4, W=4, C=1))
+        out.append(dict(kind='scat1', check='finite_scat', biort='near_sym_b_bp', magbias=mb, H=4, W=4, C=3, colour=True))
+        out.append(dict(kind='scat2', check='finite_scat', biort='near_sym_a', qshift='qshift_a', magbias=mb, H=8, W=8, C=1))
     out.append(dict(kind='scat1', check='quant_scat', biort='near_sym_b', magbias=0.01, H=4, W=4))
     out.append(dict(kind='scat2', check='quant_scat', biort='near_sym_a', qshift='qshift_a', magbias=0.01, H=8, W=8))
     if tier == 'thorough':
@@ -440,6 +445,79 @@ def _view_case(cfg):
     return specs, a, b
 
 
+def _run_finite_scat(res, cfg):
+    """no division in the forward pass of a scattering layer can meet a zero divisor on |x| <= 1: every reciprocal atom created by the symbolic run has an
+    argument whose interval enclosure over the input box excludes 0 (decided by interval reasoning over the atom definitions), or an exact witness input (the
+    all-zero image, an image that is zero outside one pixel) makes it 0 - replayed on real torch in float32 and float64, where the output must then be non-finite."""
+    rt = symtorch.real_torch()
+    H, W, C = cfg['H'], cfg['W'], cfg.get('C', 1)
+    facts = dict(check='finite', kind=cfg['kind'], magbias=cfg['magbias'])
+    stt = smt.Stats()
+    with symtorch.symbolic():
+        st = symtorch.shim()
+        x, ids = core.symin((1, C, H, W), dtype=st.float64)
+        n0 = len(P.ATOMS)
+        so = core.outcome(lambda: _scat_layer_c(symtorch.sym(), cfg)(x))
+        n1 = len(P.ATOMS)
+    res.funcs = sorted(set(res.funcs) | T.STATE.funcs_entered)
+    if so[0] == 'unsupported':
+        res.status = 'inconclusive'; res.notes.append('symbolic engine: ' + so[1]); res.stats = stt; return res
+    if so[0] != 'ok':
+        res.status = 'skipped'; res.notes.append('layer raises: %s' % (so[:2],)); res.stats = stt; return res
+    solver = smt.Solver(stats=stt)
+    for a in ids.reshape(-1):
+        solver.var(int(a))
+    memo = {}
+    points = [np.zeros((1, C, H, W))]
+    e = np.zeros((1, C, H, W)); e[0, 0, 0, 0] = 1.0; points.append(e)
+    for a in range(n0, n1):
+        if P.ATOMS.kind[a] != 'inv':
+            continue
+        arg = P.ATOMS.info[a]
+        stt.queries += 1
+        iv = solver._ival(arg, memo)
+        if iv is not None and (iv[0] > 0 or iv[1] < 0):
+            stt.unsat += 1
+            continue
+        wit = None
+        for pt in points:
+            env = P.AtomEnv()
+            for i, v in zip(ids.reshape(-1), pt.reshape(-1)):
+                env[int(i)] = float(v)
+            try:
+                v0 = arg.evalf(env)
+            except Exception:
+                v0 = float('nan')
+            if v0 == 0 or v0 != v0:
+                wit = pt; break
+        if wit is None:
+            stt.unknown += 1
+            res.status = 'inconclusive'; res.notes.append('a divisor could not be bounded away from 0 and no witness was found'); continue
+        stt.sat += 1
+        bad = []
+        for dt in (rt.float32, rt.float64):
+            layer = _scat_layer_c(symtorch.real(), cfg)
+            layer = layer.float() if dt is rt.float32 else layer.double()
+            ro = core.outcome(lambda: layer(rt.tensor(wit, dtype=dt)))
+            if ro[0] == 'ok' and not bool(rt.isfinite(ro[1]).all()):
+                bad.append(str(dt))
+        res.violations.append(dict(what='a division in the forward pass has a zero divisor at an input of the box (non-finite output on real torch in: %s)' % (bad or 'none'),
+                                   facts=facts, replay=dict(kind='finite'), reproduced=bool(bad)))
+        break
+    res.stats = stt
+    if res.violations:
+        res.status = 'violation'
+    return res
+
+
+def _scat_layer_c(pw, cfg):
+    kw = dict(biort=cfg['biort'], magbias=cfg['magbias'], combine_colour=bool(cfg.get('colour')))
+    if cfg['kind'] == 'scat2':
+        kw['qshift'] = cfg['qshift']
+        return pw.ScatLayerj2(**kw)
+    return pw.ScatLayer(**kw)
+
+
 def run_config(cfg):
     res = core.Result(cfg)
     core.begin(default64=True)
@@ -448,6 +526,8 @@ def run_config(cfg):
         return _run_dtype(res, cfg)
     if cfg['check'] == 'quant_scat':
         return _run_quant_scat(res, cfg)
+    if cfg['check'] == 'finite_scat':
+        return _run_finite_scat(res, cfg)
     if cfg['check'] == 'quant':
         return _run_quant(res, cfg)
     specs, a, b = _view_case(cfg)
